@@ -59,7 +59,8 @@ func Scale(quick, thorough int) int {
 	// of them (still seconds per property on 8 shards)
 	n := quick * envInt("VERIF_QUICK_X", 5)
 	if Thorough() {
-		n = thorough
+		// likewise the thorough budgets are a base; the thorough tier runs a multiple (minutes per property on 16 shards)
+		n = thorough * envInt("VERIF_THOROUGH_X", 8)
 	}
 	if m := envInt("VERIF_CASES_PCT", 100); m != 100 {
 		n = n * m / 100
